@@ -107,6 +107,42 @@ func ruleC06Raw(p *Prog, a *Anchors, r *Report) {
 	}
 	tparam := emit.Params[1]
 	nInit, nXform := 0, 0
+	// t == K for constants K != TokenHTML (t: emit's parameter, or the parameter of a token constructor it is passed to)
+	exclHTML := func(isT func(ssa.Value) bool) EdgePred {
+		return func(c ssa.Value, pol bool) bool {
+			bo, ok := c.(*ssa.BinOp)
+			if !ok || !isT(bo.X) {
+				return false
+			}
+			k, isC := constInt(bo.Y)
+			if !isC {
+				return false
+			}
+			return (bo.Op == token.EQL && pol && k != htmlConst) || (bo.Op == token.NEQ && !pol && k != htmlConst) || (bo.Op == token.NEQ && pol && k == htmlConst) || (bo.Op == token.EQL && !pol && k == htmlConst)
+		}
+	}
+	isValueCall := func(v ssa.Value) bool {
+		c, isCall := v.(*ssa.Call)
+		return isCall && c.Common().StaticCallee() != nil && c.Common().StaticCallee().Name() == "value"
+	}
+	// the token may be built by a constructor emit calls (`tok := l.newToken(t, l.value())`): the stores of Token.Val in
+	// there are judged like emit's own, the constructor's parameters standing for the arguments of that call
+	for _, vs := range u3TokenBuilds(p, emit) {
+		if isValueCall(vs.val) {
+			nInit++
+			r.OK("emit:initial", p.InstrPos(vs.call), "Val = l.value() (the source slice input[start:pos]), stored by %s", vs.call.Common().StaticCallee().Name())
+			continue
+		}
+		nXform++
+		call := vs.call
+		excl := Guarded(call, exclHTML(func(v ssa.Value) bool { return v == ssa.Value(tparam) })) ||
+			Guarded(vs.st, exclHTML(func(v ssa.Value) bool { return u3ParamIs(call, v, tparam) }))
+		if excl {
+			r.OK("emit:transform", p.InstrPos(vs.st), "token value rewritten only for a non-HTML token type")
+		} else {
+			r.Bad("emit:transform", p.InstrPos(vs.st), "%s, called by emit, sets the token value to something else than l.value() on a path where the token can be TokenHTML: literal text is no longer copied byte for byte", call.Common().StaticCallee().Name())
+		}
+	}
 	for _, b := range emit.Blocks {
 		for _, in := range b.Instrs {
 			st, ok := in.(*ssa.Store)
@@ -114,24 +150,14 @@ func ruleC06Raw(p *Prog, a *Anchors, r *Report) {
 				continue
 			}
 			// the initial value: l.value() = input[start:pos]
-			if c, isCall := st.Val.(*ssa.Call); isCall && c.Common().StaticCallee() != nil && c.Common().StaticCallee().Name() == "value" {
+			if isValueCall(st.Val) {
 				nInit++
 				r.OK("emit:initial", p.InstrPos(in), "Val = l.value() (the source slice input[start:pos])")
 				continue
 			}
 			nXform++
 			// must be guarded by t == K for constants K != TokenHTML
-			excl := Guarded(in, func(c ssa.Value, pol bool) bool {
-				bo, ok := c.(*ssa.BinOp)
-				if !ok || bo.X != ssa.Value(tparam) {
-					return false
-				}
-				k, isC := constInt(bo.Y)
-				if !isC {
-					return false
-				}
-				return (bo.Op == token.EQL && pol && k != htmlConst) || (bo.Op == token.NEQ && !pol && k != htmlConst) || (bo.Op == token.NEQ && pol && k == htmlConst) || (bo.Op == token.EQL && !pol && k == htmlConst)
-			})
+			excl := Guarded(in, exclHTML(func(v ssa.Value) bool { return v == ssa.Value(tparam) }))
 			if excl {
 				r.OK("emit:transform", p.InstrPos(in), "token value rewritten only for a non-HTML token type")
 			} else {
@@ -374,17 +400,23 @@ func ruleC06Comment(p *Prog, a *Anchors, r *Report) {
 			s, isC := constString(call.Common().Args[1])
 			return isC && s == "{#"
 		}
-		// the store that skips the opener: pos += 2 guarded by HasPrefix(input[pos:], "{#")
-		var skip *ssa.Store
+		// the step that skips the opener: pos += 2 guarded by HasPrefix(input[pos:], "{#") — the store itself, or the
+		// call of a small lexer method that adds its constant argument (at least the opener's length) to pos
+		// (`l.advance(2)`)
+		var skip ssa.Instruction
 		for _, f := range cl {
 			for _, b := range f.Blocks {
 				for _, in := range b.Instrs {
-					st, ok := in.(*ssa.Store)
-					if !ok || !isFieldAddrOf(st.Addr, "lexer", "pos") || skip != nil {
+					if skip != nil {
 						continue
 					}
+					if st, ok := in.(*ssa.Store); !ok || !isFieldAddrOf(st.Addr, "lexer", "pos") {
+						if _, isSkip := u3PosSkipCall(p, in, int64(len("{#"))); !isSkip {
+							continue
+						}
+					}
 					if t2GuardedIP(p, run, in, opener, 2) {
-						skip = st
+						skip = in
 					}
 				}
 			}
